@@ -338,6 +338,26 @@ def r6(ctx: Context) -> None:
         ctx.add("R6", f"{c.qualname}::inverse-library-calls", pair, s.loc(), "" if pair else "serialize and deserialize do not use inverse functions of one library")
 
 
+def r6b(ctx: Context) -> None:
+    """the JSON decoder visits the whole value: envelopes may sit at any depth of a list / dict"""
+    m = ctx.repo.modules.get("pynenc.serializer.json_serializer")
+    f = m.functions.get("_reconstruct_from_json") if m else None
+    if f is None:
+        raise AnalysisError("anchor-vanished: json_serializer._reconstruct_from_json")
+    p = f.params[0]
+    n = 0
+    for br in [x for x in walk_no_nested(f.node) if isinstance(x, ast.If) and isinstance(x.test, ast.Call) and call_name(x.test) == "isinstance" and x.test.args and isinstance(x.test.args[0], ast.Name) and x.test.args[0].id == p]:
+        kinds = ast.unparse(br.test.args[1]) if len(br.test.args) > 1 else ""
+        if not any(k in kinds for k in ("list", "dict", "tuple")):
+            continue
+        n += 1
+        raw = [r for st in br.body for r in ast.walk(st) if isinstance(r, ast.Return) and isinstance(r.value, ast.Name) and r.value.id == p]
+        recursive = [r for st in br.body for r in ast.walk(st) if isinstance(r, ast.Return) and r.value is not None and any(isinstance(c, ast.Call) and call_name(c) == f.name for c in ast.walk(r.value))]
+        ok = bool(recursive) and not raw
+        ctx.add("R6", f"{f.qualname}::visits-every-element::{kinds}", ok, f.loc(raw[0]) if raw else f.loc(br), "" if ok else f"inside the {kinds} branch the container is returned as it is on some path: typed values (enums, exceptions, JsonSerializable objects) stored deeper in such a container come back as raw envelope dictionaries")
+    ctx.floor("R6", "container branches of the JSON decoder", n, 2)
+
+
 def r7(ctx: Context) -> None:
     ctx.rule("R7", "one serialisation policy for task arguments: in the call / task modules every task-argument dictionary goes through client_data_store.serialize_arguments(<dict>, <task>.conf.disable_cache_args) - the inline-vs-reference decision is part of the serialised text that argument indexes and concurrency keys compare, so a site that decides differently (per-value serialize(), another disable list) gives the same call two identities")
     repo = ctx.repo
@@ -376,6 +396,7 @@ def run(ctx: Context) -> None:
     r3(ctx, sites)
     r4_r5(ctx)
     r6(ctx)
+    r6b(ctx)
     r7(ctx)
     ctx.exhaustive = True
     ctx.not_decided += [
